@@ -425,6 +425,85 @@ pub fn wide_support_case(n: usize, k: u64) -> Vec<(String, String)> {
     }
 }
 
+/// restrictions on a BIG diagram in one store: f = OR of m products x_i & y_i under the order x0 .. x_{m-1}, y0 .. y_{m-1}
+/// (about 2^(m+1) nodes; m = 12: more than 4096, m = 13: more than 2^13), restricted by every variable and value one after
+/// the other - so every later restriction meets the memo entries of the earlier ones - and by pairs of variables; each
+/// result is compared exactly with the reference BDD. (A memo of bounded size, or one that is keyed modulo something, only
+/// shows when a single request touches more entries than it holds.)
+pub fn big_restrict_case(m: usize) -> Vec<(String, String)> {
+    use crate::refbdd::*;
+    let mut f = Fm::bin(0, Fm::Atom(0), Fm::Atom(m));
+    for i in 1..m {
+        f = Fm::bin(1, f, Fm::bin(0, Fm::Atom(i), Fm::Atom(m + i)));
+    }
+    let r = guard(|| {
+        let mut found: Vec<(String, String)> = vec![];
+        let mut b = Bdd::new();
+        let hf = build_fm(&mut b, &f);
+        let mut rb = RefBdd::new();
+        let rf = rb.compile(&f, &|x| x);
+        if let Err(e) = same_function(&b.nodes, hf, &rb, rf) {
+            found.push(("big-restrict:build".into(), e));
+            return found;
+        }
+        let n = 2 * m;
+        for round in 0..2 {
+            for v in 0..n {
+                for val in [false, true] {
+                    let hr = b.restrict(hf, var(v), val);
+                    let rr = rb.restrict(rf, v, val);
+                    if let Err(e) = same_function(&b.nodes, hr, &rb, rr) {
+                        found.push(("big-restrict:wrong-function".into(), format!("restrict(f, {}, {}) on the OR of {} products ({} nodes in the store, pass {}) is not the cofactor: {}", v, val, m, b.nodes.len(), round + 1, e.chars().take(200).collect::<String>())));
+                        if found.len() > 5 {
+                            return found;
+                        }
+                        continue;
+                    }
+                    // one more level: the result restricted by the variable's partner
+                    let w = (v + m) % n;
+                    let hr2 = b.restrict(hr, var(w), !val);
+                    let rr2 = rb.restrict(rr, w, !val);
+                    if let Err(e) = same_function(&b.nodes, hr2, &rb, rr2) {
+                        found.push(("big-restrict:wrong-function".into(), format!("restrict(restrict(f, {}, {}), {}, {}) on the OR of {} products is not the cofactor: {}", v, val, w, !val, m, e.chars().take(200).collect::<String>())));
+                        if found.len() > 5 {
+                            return found;
+                        }
+                    }
+                }
+            }
+        }
+        if let Err(e) = check_structure(&b.nodes) {
+            found.push(("big-restrict:not-canonical".into(), e));
+        }
+        found
+    });
+    match r {
+        Ok(f) => f,
+        Err(m) => vec![("big-restrict:panic".into(), m)],
+    }
+}
+
+pub fn big_restrict_family(run: &Run) {
+    let sizes: Vec<usize> = if run.quick() { vec![12] } else { vec![12, 13, 14] };
+    let res = run.par_family(
+        &format!("every restriction (and restrictions of the results) of the OR of {:?} products in a bad variable order - diagrams with more than 4096 / 2^13 / 2^14 nodes - in ONE store, vs. a reference BDD", sizes),
+        sizes.len() as u64,
+        || 0u64,
+        |st, k| {
+            let m = sizes[k as usize];
+            *st += 16 * m as u64;
+            run.heartbeat();
+            for (kind, msg) in big_restrict_case(m) {
+                run.violation(&kind, msg, json!({"type": "big-restrict", "products": m}));
+            }
+        },
+        &|k| json!({"type": "big-restrict", "products": sizes[k as usize]}),
+    );
+    for st in res {
+        run.add_counts(0, st, st, st);
+    }
+}
+
 /// a store with more than 2^16 memoised results and nodes: pairwise conjunctions over many variables; canonicity of
 /// the whole table, and re-requests of existing formulas must return the handles issued before
 pub fn wide_store_case(pairs: usize) -> Vec<(String, String)> {
@@ -494,6 +573,7 @@ fn scale_sections(run: &Run, c07: bool) {
             }
         }
     }
+    big_restrict_family(run);
     // chains whose support has 63 ... 130 variables
     {
         let sizes: Vec<usize> = if quick { vec![63, 64, 65, 66, 70, 130] } else { (60..=72).chain([100, 130, 257, 300]).collect() };
@@ -574,6 +654,7 @@ pub fn replay(prop: &str, c: &Value) -> Vec<(String, String)> {
         }
         #[cfg(feature = "frontend")]
         "mirror-reuse" => return crate::c19::replay(c),
+        "big-restrict" => return big_restrict_case(c["products"].as_u64().unwrap_or(12) as usize),
         "wide-support" => return wide_support_case(c["vars"].as_u64().unwrap_or(65) as usize, c["index"].as_u64().unwrap_or(0)),
         "deep" => return deep_case(c["vars"].as_u64().unwrap_or(8) as usize, c["index"].as_u64().unwrap_or(0)),
         "wide" => return wide_store_case(c["pairs"].as_u64().unwrap_or(70000) as usize),
